@@ -943,8 +943,33 @@ func (x *Exec) execInstr(fr *frame, st *State, ins ssa.Instruction) {
 		panic(unsupported("defer of " + ins.Call.String()))
 	case *ssa.Go, *ssa.Send, *ssa.Select:
 		panic(unsupported("concurrency instruction " + ins.String()))
-	case *ssa.Range, *ssa.Next:
-		panic(unsupported("range over map/string: " + ins.String()))
+	case *ssa.Range:
+		if _, ok := ins.X.Type().Underlying().(*types.Map); !ok {
+			panic(unsupported("range over string: " + ins.String()))
+		}
+		// Iteration over a Go map is abstracted: the iterator is opaque and every Next yields an
+		// arbitrary "more?" flag with an arbitrary key and value (a superset of the real
+		// behaviours, so anything proved holds for the real order and contents).
+		x.Notes.Assumed["range over a map is abstracted: arbitrarily many iterations with arbitrary keys and values (nothing is concluded from the map's contents)"] = true
+		st.Env[ins] = Value{T: ins.Type(), L: []*Term{c.IntLit(0)}}
+	case *ssa.Next:
+		if ins.IsString {
+			panic(unsupported("range over string: " + ins.String()))
+		}
+		tup := ins.Type().(*types.Tuple)
+		out := Value{T: tup}
+		for i := 0; i < tup.Len(); i++ {
+			ft := tup.At(i).Type()
+			var fv Value
+			if b, ok := ft.(*types.Basic); ok && b.Kind() == types.Invalid {
+				fv = Value{T: ft} // blank key or value
+			} else {
+				fv = x.FreshValue("maprange", ft)
+				x.assume(st, x.wf(fv, st.Alloc))
+			}
+			out.Tuple = append(out.Tuple, fv)
+		}
+		st.Env[ins] = out
 	default:
 		panic(unsupported(fmt.Sprintf("instruction %T", ins)))
 	}
